@@ -9,6 +9,7 @@ argv[1] = behaviour:
   flood_graceful    the same, but exits with status 0 on SIGTERM
   flood_junk        floods its stdout with short lines that are not messages ("x" - progress dots, log lines on stdout),
                     as fast as the pipe takes them (non-blocking writes, retried); dies at once on SIGTERM
+  flood_noline      the same flood, but the data never contains a line break
   close_stdout      closes stdout, then sleeps
   close_stdin       closes stdin, then sleeps (still holds stdout)
   slow_start:<s>    sleeps s seconds, then behaves well
@@ -103,6 +104,17 @@ elif beh == "flood_graceful":
             os.write(1, blob)
     except OSError:
         os._exit(0)
+elif beh.startswith("flood_noline"):
+    out({"jsonrpc": "2.0", "method": "notifications/ready"})
+    os.set_blocking(1, False)
+    blob = b"x" * (int(beh.split(":")[1]) if ":" in beh else 4096)
+    while True:
+        try:
+            os.write(1, blob)
+        except BlockingIOError:
+            pass
+        except BaseException:
+            os._exit(0)
 elif beh == "flood_junk":
     out({"jsonrpc": "2.0", "method": "notifications/ready"})
     os.set_blocking(1, False)
